@@ -837,36 +837,38 @@ def notifyChain (cfg : Cfg) (s : SvcId) : String := if s.bxh ≠ cfg.bxh then un
 def pushTo (m : KV String (List TId)) (c : String) (id : TId) : KV String (List TId) :=
   KV.set m c (KV.getD m c [] ++ [id])
 
+def timeoutMapStep (cfg : Cfg) (l : Led) (acc : Option (KV String (List TId))) (v : TId) : Option (KV String (List TId)) :=
+  match acc with
+  | none => none
+  | some m =>
+    match v with
+    | .single t => some (pushTo m (notifyChain cfg t.frm) v)
+    | .global g =>
+      match l.getS (.glob g) with
+      | some (.glob gi) =>
+        some (gi.children.foldl (fun m p =>
+          let m1 := pushTo m (notifyChain cfg p.1.frm) (.single p.1)
+          if p.2.isFinal then pushTo m1 (notifyChain cfg p.1.to) (.single p.1) else m1) m)
+      | _ => none
+
 /-- `getTimeoutIBTPsMap`: a missing global record aborts with an error (nil map) -/
 def getTimeoutMap (cfg : Cfg) (l : Led) (h : Nat) : KV String (List TId) :=
-  let r := (getTimeoutList l h).foldl (fun (acc : Option (KV String (List TId))) v =>
-    match acc with
-    | none => none
-    | some m =>
-      match v with
-      | .single t => some (pushTo m (notifyChain cfg t.frm) v)
-      | .global g =>
-        match l.getS (.glob g) with
-        | some (.glob gi) =>
-          some (gi.children.foldl (fun m p =>
-            let m1 := pushTo m (notifyChain cfg p.1.frm) (.single p.1)
-            if p.2.isFinal then pushTo m1 (notifyChain cfg p.1.to) (.single p.1) else m1) m)
-        | _ => none) (some [])
-  r.getD []
+  ((getTimeoutList l h).foldl (timeoutMapStep cfg l) (some [])).getD []
+
+def rollbackStep (h : Nat) (acc : Led × Bool) (id : TId) : Led × Bool :=
+  if acc.2 then acc else
+  match id with
+  | .global g =>
+    match acc.1.getS (.glob g) with
+    | some (.glob gi) =>
+      let g' := { gi with state := .beginRollback, children := gi.children.map (fun p => (p.1, Status.beginRollback)) }
+      (acc.1.setS (.glob g) (some (.glob g')), false)
+    | _ => (acc.1, true)
+  | .single t => (acc.1.setS (.txRec t) (some (.trec { height := h, status := .beginRollback })), false)
 
 /-- `setTimeoutRollback` (stops at the first error, which is only logged) -/
 def setTimeoutRollback (l : Led) (h : Nat) : Led :=
-  let r := (getTimeoutList l h).foldl (fun (acc : Led × Bool) id =>
-    if acc.2 then acc else
-    match id with
-    | .global g =>
-      match acc.1.getS (.glob g) with
-      | some (.glob gi) =>
-        let g' := { gi with state := .beginRollback, children := gi.children.map (fun p => (p.1, Status.beginRollback)) }
-        (acc.1.setS (.glob g) (some (.glob g')), false)
-      | _ => (acc.1, true)
-    | .single t => (acc.1.setS (.txRec t) (some (.trec { height := h, status := .beginRollback })), false)) (l, false)
-  r.1
+  ((getTimeoutList l h).foldl (rollbackStep h) (l, false)).1
 
 structure Node where
   led : Led
